@@ -77,10 +77,10 @@ Inductive pres := POk (o : obj) | PNotFound | PInvalid.   (* outcome of a patch 
 Inductive ev :=
 | EApply (k : okey) (read : option obj) (pre : option obj) (post : pres)
 | ERelease (k : okey) (read : obj) (pre : option obj) (post : pres)
-| EDelete (k : okey) (read : obj) (pre : option obj) (res : dres).
+| EDelete (k : okey) (read : obj) (puid prv : N) (pre : option obj) (res : dres).   (* puid/prv: preconditions carried *)
 
 Definition ev_key (e : ev) : okey :=
-  match e with EApply k _ _ _ | ERelease k _ _ _ | EDelete k _ _ _ => k end.
+  match e with EApply k _ _ _ | ERelease k _ _ _ | EDelete k _ _ _ _ _ => k end.
 
 Inductive errclass :=
 | ErrNotPrevious | ErrRevCollision | ErrRevParse | ErrOwnerRef | ErrInvalid.
@@ -216,14 +216,14 @@ Section Pass.
           let w1 := between w in
           let pre := api_get w1 k in
           let '(w2, r) := api_delete w1 k (o_uid cu) (o_rv cu) in
-          (w2, [EDelete k cu pre r], match r with DNotFound => true | _ => false end)
+          (w2, [EDelete k cu (o_uid cu) (o_rv cu) pre r], match r with DNotFound => true | _ => false end)
     end
     end.
 
   (** Errors of teardownPhaseObject abort TeardownPhase: a Conflict on delete or NotFound on the release patch. *)
   Definition teardown_err (e : list ev) : bool :=
     existsb (fun x => match x with
-                      | EDelete _ _ _ DConflict => true
+                      | EDelete _ _ _ _ _ DConflict => true
                       | ERelease _ _ _ PNotFound | ERelease _ _ _ PInvalid => true
                       | _ => false end) e.
 
